@@ -38,8 +38,9 @@ impl<'a> Reader<'a> {
 }
 
 pub fn motif(r: &mut Reader) -> Motif {
-    match r.below(11) {
+    match r.below(12) {
         0 => Motif::None,
+        10 => Motif::EpStalemate { black: r.bool(), file: r.below(6), capturer_right: r.bool(), dir: r.below(4), dk: r.below(4), ds: r.below(4), with_slider: r.below(4) != 0, queen: r.bool() },
         1 => {
             let (black, kf, short_sel, long_sel) = (r.bool(), r.below(6), r.u8(), r.u8());
             let attackers = (0..r.below(4)).map(|_| (r.u8(), r.below(8), r.below(7), r.u8())).collect();
@@ -128,6 +129,7 @@ pub fn pos_case(r: &mut Reader) -> PosCase {
     let start = match r.below(10) {
         0 | 1 => Start::Dfrc(r.u16() as u32 % 960, r.u16() as u32 % 960),
         2 => Start::Seed(r.u16() as usize),
+        3 => Start::Edited(Box::new(edited_state(r))),
         _ => Start::Built(Box::new(ingredients(r))),
     };
     let mut ops = ops(r, 40);
